@@ -1878,9 +1878,9 @@ bool TypeChecker::checkExpression(expression_t expr)
 
     case NEQ:
         // clocks first, as for EQ: two clock types are "equivalent", so areEqCompatible accepts them
-        if ((is_clock(expr[0]) && is_clock(expr[1])) || (is_clock(expr[0]) && is_integer(expr[1])) ||
-            (is_integer(expr[0]) && is_clock(expr[1])) || (is_diff(expr[0]) && is_integer(expr[1])) ||
-            (is_integer(expr[0]) && is_diff(expr[1]))) {
+        if ((is_clock(expr[0]) && is_clock(expr[1])) || (is_clock(expr[0]) && is_number(expr[1])) ||
+            (is_number(expr[0]) && is_clock(expr[1])) || (is_diff(expr[0]) && is_number(expr[1])) ||
+            (is_number(expr[0]) && is_diff(expr[1]))) {
             type = type_t::create_primitive(CONSTRAINT);
         } else if (areEqCompatible(expr[0].get_type(), expr[1].get_type())) {
             type = type_t::create_primitive(Constants::BOOL);
@@ -1894,8 +1894,8 @@ bool TypeChecker::checkExpression(expression_t expr)
         if (is_integral(expr[0]) && is_integral(expr[1])) {
             type = type_t::create_primitive(Constants::BOOL);
         } else if ((is_clock(expr[0]) && is_clock(expr[1])) || (is_integer(expr[0]) && is_clock(expr[1])) ||
-                   (is_integer(expr[1]) && is_clock(expr[0])) || (is_diff(expr[0]) && is_integer(expr[1])) ||
-                   (is_integer(expr[0]) && is_diff(expr[1]))) {
+                   (is_integer(expr[1]) && is_clock(expr[0])) || (is_diff(expr[0]) && isBound(expr[1])) ||
+                   (isBound(expr[0]) && is_diff(expr[1]))) {
             type = type_t::create_primitive(INVARIANT);
         } else if (is_number(expr[0]) && is_clock(expr[1])) {
             type = type_t::create_primitive(GUARD);
